@@ -1,5 +1,7 @@
-(* driver.ml -- runs the extracted Coq model (model.ml) on case lines.
-   usage: mdriver <component>     one case per stdin line, one result per stdout line.
+(* util.ml -- shared prefix of every extracted-model driver.  The build
+   concatenates util.ml and <component>.ml into driver.ml and links it with the
+   component's extracted model.ml.  One case per stdin line, one result per
+   stdout line.
    Numbers cross the boundary as decimal text; inside they are the extracted
    inductive types (positive / N / Z / nat), never OCaml ints. *)
 open Model
@@ -42,28 +44,21 @@ let fmt_bool b = if b then "1" else "0"
 let tokens (line : string) : string list =
   List.filter (fun t -> t <> "") (String.split_on_char ' ' line)
 
-(* ---- components ---- *)
 
-(* esc: "<auto> <w> <kind> <units> <impl_out>"  ->  "<model_out> <oracle verdict on impl_out>"
-   auto: 0 = build configured off, 2 = default build (model follows the generated
-   tables; the oracle demands the documented default, i.e. escaping on) *)
-let comp_esc line =
-  match tokens line with
-  | [a; w; kind; s; out] ->
-    let a = n_of_string a and w = n_of_string w and kind = n_of_string kind and s = parse_list s in
-    let m = c03_emit a kind w s in
-    let oa = (match a with N0 -> N0 | _ -> n_of_int 1) in
-    let verdict = if out = "CRASH" then false else c03_oracle_kind oa kind w s (parse_list out) in
-    fmt_list m ^ " " ^ fmt_bool verdict
-  | _ -> "BADCASE"
+let z_of_string (s : string) : z =
+  if String.length s > 0 && s.[0] = '-' then Z.opp (Z.of_N (n_of_string (String.sub s 1 (String.length s - 1))))
+  else Z.of_N (n_of_string s)
+let string_of_z (x : z) : string =
+  match x with
+  | Z0 -> "0"
+  | Zpos p -> string_of_n (Npos p)
+  | Zneg p -> "-" ^ string_of_n (Npos p)
+let parse_zlist (s : string) : z list =
+  if s = "-" || s = "" then [] else List.map z_of_string (String.split_on_char ',' s)
+let fmt_zlist (l : z list) : string =
+  match l with [] -> "-" | _ -> String.concat "," (List.map string_of_z l)
 
-let () =
-  let comp = if Array.length Sys.argv > 1 then Sys.argv.(1) else "" in
-  let f =
-    match comp with
-    | "esc" -> comp_esc
-    | _ -> (fun _ -> "UNKNOWN-COMPONENT")
-  in
+let main_loop (f : string -> string) =
   try
     while true do
       let line = input_line stdin in
